@@ -69,8 +69,13 @@ EvFmt == /\ Ev("fmt")
 EvNorm == /\ Ev("norm")
           /\ LET h == H(E.h)
                  n == NormalizeHash(h) IN
-             /\ Expect(\A f \in DOMAIN E.routes : H(E.routes[f]) = n /\ E.routes[f].valid = TRUE
-                                                  /\ E.routes[f].isn = TRUE, <<l, "norm-routes", n>>)
+             (* the strict parser refuses a text whose RAW block hash exceeds the capacity of the type
+                it is parsed into, even when the run-collapsed one would fit: the two short text routes
+                must then fail (recorded as k = -1) instead of normalising *)
+             /\ Expect(\A f \in DOMAIN E.routes :
+                          IF STRICT /\ f \in {"short_parse", "short_from_bytes"} /\ Len(h.b) > CAP2S
+                          THEN E.routes[f].k = -1
+                          ELSE H(E.routes[f]) = n /\ E.routes[f].valid = TRUE /\ E.routes[f].isn = TRUE, <<l, "norm-routes", n>>)
              /\ Expect("normalize" \in DOMAIN E.routes /\ "in_place" \in DOMAIN E.routes /\ "parse" \in DOMAIN E.routes
                        /\ "dual" \in DOMAIN E.routes, <<l, "norm-routes-present">>)
              /\ Expect(E.isn_raw = IsNormalizedHash(h), <<l, "norm-isnormalized", IsNormalizedHash(h)>>)
